@@ -14,18 +14,23 @@ use serde::{Deserialize, Serialize};
 
 #[derive(Clone, Debug, Serialize, Deserialize, PartialEq)]
 pub struct FrCase {
-    /// spans thread B finishes before calling flush(): 0 root, 1 child of a live root, 2 local scope
+    /// spans thread B finishes before calling flush(): 0 root, 1 child of a live root, 2 local scope,
+    /// 3 root on which cancel() is called first (a no-op in the default configuration)
     pub b_spans: Vec<u8>,
     /// extra threads that also finish a span and flush while the first flush is parked
     pub extra: u8,
     /// delay between "B is about to call flush()" and opening the gate
     pub delay_us: u16,
     pub cancelable: bool,
+    /// roots created before the first flush starts (its cycle consumes their start) and finished
+    /// while that flush is parked inside report(), before the other threads call flush()
+    #[serde(default)]
+    pub pre_roots: u8,
 }
 
 pub fn strategy() -> BoxedStrategy<FrCase> {
-    (proptest::collection::vec(0u8..3, 1..5), 0u8..3, prop_oneof![1 => Just(0u16), 3 => 50u16..3000], Just(false))
-        .prop_map(|(b_spans, extra, delay_us, cancelable)| FrCase { b_spans, extra, delay_us, cancelable })
+    (proptest::collection::vec(0u8..4, 1..5), 0u8..3, prop_oneof![1 => Just(0u16), 3 => 50u16..3000], Just(false), prop_oneof![1 => Just(0u8), 2 => 1u8..4])
+        .prop_map(|(b_spans, extra, delay_us, cancelable, pre_roots)| FrCase { b_spans, extra, delay_us, cancelable, pre_roots })
         .boxed()
 }
 
@@ -81,6 +86,14 @@ pub fn run(c: &FrCase) -> Result<Vec<String>, String> {
     *g.parked.lock().unwrap() = false;
     *g.open.lock().unwrap() = false;
     *g.park_on.lock().unwrap() = Some(gate_name.clone());
+    // traces that are alive across the first flush's cycle
+    let mut pre: Vec<(String, Span, Span)> = (0..c.pre_roots)
+        .map(|i| {
+            let r = Span::root(format!("pre-{}-{}", tag, i), SpanContext::new(TraceId(300 + i as u128), SpanId(0)));
+            let ch = Span::enter_with_parent(format!("prech-{}-{}", tag, i), &r);
+            (format!("pre-{}-{}", tag, i), r, ch)
+        })
+        .collect();
     // thread A: its flush() parks inside report()
     let gn = gate_name.clone();
     let a = std::thread::spawn(move || {
@@ -103,6 +116,14 @@ pub fn run(c: &FrCase) -> Result<Vec<String>, String> {
     }
     // threads B..: finish spans, then flush() while A's cycle is parked
     let entering = Arc::new(AtomicU64::new(0));
+    // finished while the first cycle is inside report(): the next cycle consumes these commands
+    let mut pre_names = vec![];
+    for (n, r, ch) in pre.drain(..) {
+        pre_names.push(n.replace("pre-", "prech-"));
+        pre_names.push(n);
+        drop(ch);
+        drop(r);
+    }
     let live_root = Span::root(format!("live-{}", tag), SpanContext::new(TraceId(2), SpanId(0)));
     let nthreads = 1 + c.extra as usize;
     let mut hs = vec![];
@@ -115,13 +136,20 @@ pub fn run(c: &FrCase) -> Result<Vec<String>, String> {
         let results2 = results.clone();
         let parent = Span::enter_with_parent(format!("handoff-{}-{}", tag, t), &live_root);
         let started2 = started.clone();
+        let pre_names2 = if t == 0 { pre_names.clone() } else { vec![] };
         hs.push(std::thread::spawn(move || {
-            let mut mine = vec![];
+            let mut mine = pre_names2;
             for (i, k) in kinds.iter().enumerate() {
                 let name = format!("b{}-{}-{}", t, tag2, i);
                 match k {
                     0 => drop(Span::root(name.clone(), SpanContext::new(TraceId(100 + i as u128), SpanId(0)))),
                     1 => drop(Span::enter_with_parent(name.clone(), &parent)),
+                    3 => {
+                        let r = Span::root(name.clone(), SpanContext::new(TraceId(200 + i as u128), SpanId(0)));
+                        r.cancel();
+                        parent.cancel(); // not a root: nothing to cancel
+                        drop(r);
+                    }
                     _ => {
                         let _g = parent.set_local_parent();
                         let _l = LocalSpan::enter_with_local_parent(name.clone());
@@ -164,6 +192,14 @@ pub fn run(c: &FrCase) -> Result<Vec<String>, String> {
     }
     drop(live_root);
     fastrace::flush();
+    #[cfg(fastrace_verif)]
+    {
+        // C08: every trace of the case has finished and a full cycle has run since
+        let st = fastrace::verif::collector_stats();
+        if st.active_collectors != 0 || st.buffered_span_sets != 0 {
+            results.lock().unwrap().push(format!("RETAINED: after overlapping flush() calls, all roots finished and one more cycle, the collector still holds {:?}", st));
+        }
+    }
     let r = results.lock().unwrap().clone();
     Ok(r)
 }
